@@ -65,6 +65,58 @@ func stepPhi(v ssa.Value) bool {
 	return init && step
 }
 
+// structurallyBounded: the loop with header h runs a bounded number of times because of the shape of
+// its condition alone: a counter stepping by one compared with something, or the loop-carried
+// `found` of strings.Cut / a remainder that gets shorter every round.
+func structurallyBounded(h *ssa.BasicBlock) string {
+	if h == nil || len(h.Instrs) == 0 {
+		return ""
+	}
+	ifi, ok := h.Instrs[len(h.Instrs)-1].(*ssa.If)
+	if !ok {
+		return ""
+	}
+	cond := ifi.Cond
+	if u, isNot := cond.(*ssa.UnOp); isNot && u.Op == token.NOT {
+		cond = u.X
+	}
+	if bo, ok := cond.(*ssa.BinOp); ok {
+		switch bo.Op {
+		case token.LSS, token.LEQ, token.GTR, token.GEQ, token.NEQ:
+			if stepPhi(bo.X) || stepPhi(bo.Y) {
+				return "a counter"
+			}
+		}
+	}
+	// for found { before, rest, found = strings.Cut(rest, sep) ... }
+	if phi, ok := cond.(*ssa.Phi); ok && phi.Block() == h {
+		for _, e := range phi.Edges {
+			ex, ok := e.(*ssa.Extract)
+			if !ok || ex.Index != 2 {
+				continue
+			}
+			call, ok := ex.Tuple.(*ssa.Call)
+			if !ok {
+				continue
+			}
+			if pkg, name := staticCalleeName(call); pkg != "strings" || name != "Cut" || len(call.Call.Args) != 2 {
+				continue
+			}
+			// the string that is cut is itself loop-carried and its next value is what Cut left over
+			if rest, ok := call.Call.Args[0].(*ssa.Phi); ok && rest.Block() == h {
+				for _, re := range rest.Edges {
+					if rex, ok := re.(*ssa.Extract); ok && rex.Tuple == ssa.Value(call) && rex.Index == 1 {
+						if sep, ok := call.Call.Args[1].(*ssa.Const); ok && sep.Value != nil && sep.Value.Kind() == constant.String && constant.StringVal(sep.Value) != "" {
+							return "strings.Cut on what the previous round left over (shorter every time)"
+						}
+					}
+				}
+			}
+		}
+	}
+	return ""
+}
+
 // parserSSA: the token cursor functions of the parser on the SSA form.
 type parserSSA struct {
 	next, curIs, peekIs, expect *ssa.Function
@@ -321,6 +373,13 @@ func parserLoopsRuleSSA(r *Run, rule string) {
 				}
 				v.cycles++
 				moved, stops, bounded := false, false, false
+				// bounded by construction, whatever the path decided: the loop's own condition compares a counter
+				// that steps by one (also when the bound is a constant and the comparison folded away), or is the
+				// "found" of strings.Cut applied to what the previous round left over
+				if how := structurallyBounded(mk.block); how != "" {
+					bounded = true
+					v.how[how] = true
+				}
 				for i := mk.fromEvents; i < mk.nEvents && i < len(p.events); i++ {
 					if c, ok := p.events[i].(*ssa.Call); ok && (c.Call.StaticCallee() == next || mustMove(c.Call.StaticCallee(), 0)) {
 						moved = true
